@@ -1,12 +1,14 @@
 """C15 — retained messages: latest per topic on new subscription, cleared by empty (DESIGN §4 C15)."""
 import re
 from ..core import *
+from . import matchroles
 
 EXPLANATION = (
     "Static decision on the MIR of /repo's working tree: (R-C15-store) in append_to_commitlog and append_will_message (siblings): an empty payload leads to remove_from_retained_publishes, "
     "otherwise retain leads to insert_to_retained_publishes with a copy taken before `publish.retain = false`, and that assignment dominates the append loop (live forwards are not flagged retained); "
     "(R-C15-oneshot) read_retained_messages is called only in forward_device_data under request.forward_retained and every path from the call clears the flag; a new DataRequest's forward_retained is group.is_none(); "
     "a DataRequest is built only when connection.subscriptions.insert() reported a new filter; retained forwards carry no log cursor. "
+    "(R-C15-match) read_retained_messages passes the retained map's key (a topic) as matches()'s topic argument and the subscription filter as its filter argument; "
     "NOT decided: 'most recent per topic' over publish histories; the retain flag on the wire (C04).")
 ASSUMPTIONS = ["rustc MIR construction is correct"]
 TECHNIQUE = "static analysis: edge-restricted dominance and must-pass rules, provenance, sibling agreement"
@@ -18,6 +20,7 @@ def run(ctx):
     prog = ctx.progs["rumqttd"]
     ctx.guarded("R-C15-store", store, ctx, prog)
     ctx.guarded("R-C15-oneshot", oneshot, ctx, prog)
+    ctx.guarded("R-C15-match", matchroles.check, ctx, "R-C15-match", prog, r"^router::logs::DataLog::read_retained_messages$", "retained replay for a new subscription")
 
 
 def switch_on_call_result(body, callee_regex, recv_field=None):
